@@ -164,6 +164,102 @@ def replay(vectors, name, tables, groups="G1,G2", profiles="5", build="release",
     return summ
 
 
+# --------------------------------------------------------------------------- trace validation
+TRACE_JAVA = "-Xss1g -Dtlc2.tool.queue.IStateQueue=StateDeque"
+
+
+def validate_trace(trace_module, trace_path, name, timeout=3000):
+    """TLC on the Trace spec; returns (accepted, rejected_at, event_json, wall, states)"""
+    md = os.path.join(WORK, "md_tr_" + name)
+    shutil.rmtree(md, ignore_errors=True)
+    cmd = ["tlc", "-workers", "1", "-metadir", md, "-cleanup", "-noGenerateSpecTE", "-config",
+           os.path.join(SPEC, trace_module + ".cfg"), os.path.join(SPEC, trace_module + ".tla")]
+    try:
+        rc, out, dt = sh(cmd, cwd=WORK, timeout=timeout, env={"TRACE": trace_path, "JAVA_TOOL_OPTIONS": TRACE_JAVA}, check=False)
+    except subprocess.TimeoutExpired:
+        raise ToolError("trace validation timed out (%s)" % name)
+    finally:
+        shutil.rmtree(md, ignore_errors=True)
+    m = re.search(r"(\d+) states generated, (\d+) distinct states found", out)
+    states = int(m.group(2)) if m else 0
+    if "Model checking completed. No error has been found." in out and "TRACE-REJECTED" not in out:
+        return True, 0, None, dt, states
+    mr = re.search(r'<<"TRACE-REJECTED at event", (\d+), (".*")>>', out)
+    if mr:
+        evs = json.loads(mr.group(2))
+        try:
+            evs = json.loads(evs)
+        except Exception:
+            pass
+        return False, int(mr.group(1)), evs, dt, states
+    raise ToolError("trace validation failed without a verdict (%s):\n%s" % (name, out[-4000:]))
+
+
+def record(driver, name, events, mix="all", groups="G1,G2", build="release", feature="blst", extra=None, timeout=3000):
+    tp = os.path.join(WORK, name + ".trace.ndjson")
+    cmd = [bin_path(build, feature), "record", "--driver", driver, "--events", str(events), "--seed", str(SEED),
+           "--mix", mix, "--groups", groups, "--out", tp] + (extra or [])
+    try:
+        rc, out, dt = sh(cmd, cwd=WORK, timeout=timeout, check=False)
+    except subprocess.TimeoutExpired:
+        raise ToolError("record timed out (%s)" % name)
+    if rc != 0:
+        raise ToolError("record harness failed (rc=%d): %s" % (rc, out[-3000:]))
+    n = sum(1 for _ in open(tp))
+    return tp, n, dt
+
+
+def record_and_validate(run, driver, trace_module, name, events, tables, mix="all", groups="G1,G2", extra=None):
+    tp, n, dt = record(driver, name + "_" + driver, events, mix=mix, groups=groups, extra=extra)
+    ok, at, ev, dt2, states = validate_trace(trace_module, tp, name + "_" + driver)
+    run.stages.append({"stage": "trace", "driver": driver, "spec": trace_module, "events": n, "accepted": ok,
+                       "record_wall_s": round(dt, 1), "tlc_wall_s": round(dt2, 1)})
+    run.states += states
+    run.transitions += states
+    if ok:
+        run.traces += 1
+        run.trace_events += n
+        with open(tp) as f:
+            lines = f.readlines()
+        run.samples.append({"trace_excerpt": [json.loads(x) for x in lines[1:5]]})
+    else:
+        keep = os.path.join(REPLAYS, run.prop)
+        os.makedirs(keep, exist_ok=True)
+        kp = os.path.join(keep, "trace_%s_seed%d.ndjson" % (driver, SEED))
+        shutil.copy(tp, kp)
+        run.violations.append(("trace", {"why": "recorded trace of the real library rejected by %s at event %d" % (trace_module, at),
+                                         "event": ev, "at": at, "trace": kp, "driver": driver}))
+    return ok
+
+
+def selftest_trace(driver, trace_module, kind_of_event="Verify"):
+    """negative controls (DESIGN.md 3.5): a corrupted log must be rejected at the corrupted line"""
+    tp, n, _ = record(driver, "selftest_" + driver, 150)
+    ok, at, ev, _, _ = validate_trace(trace_module, tp, "selftest")
+    if not ok:
+        raise ToolError("self-test: pristine trace rejected at %d: %s" % (at, ev))
+    evs = [json.loads(x) for x in open(tp)]
+    i = next(i for i, e in enumerate(evs) if e["ev"] == kind_of_event)
+    a = [dict(e) for e in evs]
+    a[i]["res"] = "Ok" if a[i]["res"] == "Err" else "Err"
+    outs = [i for i, e in enumerate(evs) if e.get("out") and e["ev"] == "Sign"]
+    j = next(j for j in outs if evs[j]["out"] != evs[outs[0]]["out"])
+    b = [dict(e) for e in evs]
+    b[j]["out"] = b[outs[0]]["out"]
+    c = [e for k, e in enumerate(evs) if k != outs[0]]
+    for label, t, where in (("flipped verdict", a, i + 1), ("merged value-ids", b, j + 1), ("dropped event", c, None)):
+        fp = os.path.join(WORK, "selftest_bad.ndjson")
+        with open(fp, "w") as f:
+            for e in t:
+                f.write(json.dumps(e) + "\n")
+        ok, at, ev, _, _ = validate_trace(trace_module, fp, "selftest")
+        if ok:
+            raise ToolError("self-test: trace with %s was accepted" % label)
+        if where is not None and at != where:
+            raise ToolError("self-test: trace with %s rejected at %d, expected %d" % (label, at, where))
+    return True
+
+
 # --------------------------------------------------------------------------- known findings
 def load_known():
     if not os.path.exists(KNOWN):
@@ -328,10 +424,12 @@ def setup():
     log("setup: parsing specs with SANY")
     for f in sorted(os.listdir(SPEC)):
         if f.endswith(".tla"):
-            rc, out, _ = sh(["tla-sany", os.path.join(SPEC, f)], cwd=WORK if os.path.isdir(WORK) else ROOT, check=False, timeout=300)
+            rc, out, _ = sh(["tla-sany", f], cwd=SPEC, check=False, timeout=300)
             if rc != 0 or "Semantic errors" in out or "*** Errors" in out or "Parse Error" in out:
                 raise ToolError("SANY rejected %s:\n%s" % (f, out[-3000:]))
     export_tables()
+    log("setup: negative controls for trace validation")
+    selftest_trace("signet", "Trace_SigNet")
     log("setup: done in %.0fs" % (time.time() - t0))
     return 0
 
